@@ -230,3 +230,55 @@ func VerifC07_StompSub() {
 	_ = bytes.MinRead
 	verifReach("end")
 }
+
+func init() {
+	verifHarnesses["VerifC07_TwoSubscribers"] = VerifC07_TwoSubscribers
+}
+
+// Two subscribers created by ONE factory (builder-made or plain) on different
+// topics: each handler sees exactly the messages of its own topic, and
+// unsubscribing one of them does not affect the other.
+func VerifC07_TwoSubscribers() {
+	newVerifBroker()
+	pf := NewFProtocolFactory(thrift.NewTBinaryProtocolFactoryDefault())
+	conn := &nats.Conn{}
+	var factory *FNatsSubscriberTransportFactory
+	if verifParam() == 0 {
+		factory = NewFNatsSubscriberFactoryBuilder(conn).WithQueueLength(uint(1 + verifChoice(2))).Build()
+		verifReach("builder-made")
+	} else {
+		factory = NewFNatsSubscriberTransportFactory(conn)
+	}
+	var logA, logB []string
+	subA, subB := factory.GetTransport(), factory.GetTransport()
+	verifAssert(subA.Subscribe("alpha", verifRecv(pf, "op", func(ctx FContext, m *verifMsg) error { logA = append(logA, m.a); return nil })) == nil, "subscribe alpha")
+	verifAssert(subB.Subscribe("beta", verifRecv(pf, "op", func(ctx FContext, m *verifMsg) error { logB = append(logB, m.a); return nil })) == nil, "subscribe beta")
+	pub := NewFNatsPublisherTransportFactory(conn).GetTransport()
+	client := &FStandardClient{publisher: pub, protocolFactory: pf, limit: pub.GetPublishSizeLimit()}
+	n := 2 + verifChoice(2)
+	wantA, wantB := 0, 0
+	for i := 0; i < n; i++ {
+		if verifChoice(2) == 0 {
+			client.Publish(NewFContext("c"), "op", "alpha", &verifMsg{a: "a"})
+			wantA++
+		} else {
+			client.Publish(NewFContext("c"), "op", "beta", &verifMsg{a: "b"})
+			wantB++
+		}
+	}
+	verifBlockUntil(func() bool { return len(logA)+len(logB) >= wantA+wantB })
+	verifAssert(len(logA) == wantA && len(logB) == wantB, "each handler ran once per message of its own topic")
+	for _, x := range logA {
+		verifAssert(x == "a", "no message of another topic reaches the alpha handler")
+	}
+	for _, x := range logB {
+		verifAssert(x == "b", "no message of another topic reaches the beta handler")
+	}
+	// unsubscribing alpha leaves beta working
+	verifAssert(subA.Unsubscribe() == nil, "unsubscribe alpha")
+	client.Publish(NewFContext("c"), "op", "beta", &verifMsg{a: "b"})
+	verifBlockUntil(func() bool { return len(logB) >= wantB+1 }) // a lost message is a deadlock here
+	verifAssert(len(logB) == wantB+1 && len(logA) == wantA, "the other subscriber keeps receiving after an Unsubscribe")
+	verifAssert(subB.Unsubscribe() == nil, "unsubscribe beta")
+	verifReach("end")
+}
